@@ -60,6 +60,7 @@ var (
 	flagMaps     = flag.Bool("maps", true, "rewrite map ranges")
 	flagOpenPkgs = flag.String("openpkgs", "", "comma separated package paths in which os.Open is replaced")
 	flagGoCtl    = flag.String("goctl", "", "comma separated func names (pkgpath.Func) whose go statements are controlled")
+	flagGoAll    = flag.Bool("goall", false, "every go statement is handed to the simulator (simrt.Go); it decides per kernel")
 	flagNoOpen   = flag.Bool("noopen", false, "do not apply the os.Open seam")
 	flagBlocking = flag.Bool("blocking", true, "bracket sync.Mutex/Once critical sections and blocking channel / WaitGroup / Cond operations")
 )
@@ -412,6 +413,34 @@ func (rw *rewriter) call(n *ast.CallExpr) {
 			case "WaitGroup.Wait", "Cond.Wait":
 				wrap = "DoBlocking"
 			}
+			// Lock / RLock on a concrete mutex and Cond.Wait get the receiver itself (TryLock loop, lock hand-over)
+			direct := ""
+			switch recv + "." + fn.Name() {
+			case "Mutex.Lock", "RWMutex.Lock":
+				direct = "MutexLock"
+			case "RWMutex.RLock":
+				direct = "MutexRLock"
+			case "Cond.Wait":
+				direct = "CondWait"
+			}
+			if direct != "" {
+				if rt := rw.info.TypeOf(sel.X); rt != nil {
+					var recvExpr ast.Expr
+					if _, isPtr := rt.Underlying().(*types.Pointer); isPtr {
+						recvExpr = sel.X
+					} else if rw.addressable(sel.X) {
+						recvExpr = &ast.UnaryExpr{Op: token.AND, X: sel.X}
+					}
+					// embedded mutexes (x.Lock() on a struct embedding sync.Mutex) go through the method-value path
+					if recvExpr != nil && rw.isSyncType(rt, recv) {
+						rw.used = true
+						id := rw.site("sync", n.Pos(), recv+"."+fn.Name())
+						n.Fun = &ast.SelectorExpr{X: ast.NewIdent(simrtName), Sel: ast.NewIdent(direct)}
+						n.Args = []ast.Expr{lit(id), recvExpr}
+						return
+					}
+				}
+			}
 			if wrap != "" {
 				rw.used = true
 				id := rw.site("sync", n.Pos(), recv+"."+fn.Name())
@@ -489,6 +518,47 @@ func (rw *rewriter) selectStmt(c *astutil.Cursor, n *ast.SelectStmt) {
 		cc.Body = append([]ast.Stmt{&ast.ExprStmt{X: simCall("BlockEnd", tok)}}, cc.Body...)
 	}
 	c.InsertBefore(&ast.AssignStmt{Lhs: []ast.Expr{tok}, Tok: token.DEFINE, Rhs: []ast.Expr{simCall("BlockBegin", lit(id))}})
+}
+
+// isSyncType: is t (or what it points to) exactly sync.<name>?
+func (rw *rewriter) isSyncType(t types.Type, name string) bool {
+	named, ok := deref(t).(*types.Named)
+	return ok && named.Obj().Pkg() != nil && named.Obj().Pkg().Path() == "sync" && named.Obj().Name() == name
+}
+
+// addressable: a variable, a field selection or an index/deref of something addressable.
+func (rw *rewriter) addressable(e ast.Expr) bool {
+	switch x := e.(type) {
+	case *ast.Ident:
+		_, ok := rw.info.Uses[x].(*types.Var)
+		return ok
+	case *ast.SelectorExpr:
+		if s, ok := rw.info.Selections[x]; ok && s.Kind() == types.FieldVal {
+			if _, isPtr := rw.info.TypeOf(x.X).Underlying().(*types.Pointer); isPtr {
+				return true
+			}
+			return rw.addressable(x.X)
+		}
+		if id, ok := x.X.(*ast.Ident); ok {
+			if _, isPkg := rw.info.Uses[id].(*types.PkgName); isPkg {
+				_, isVar := rw.info.Uses[x.Sel].(*types.Var)
+				return isVar
+			}
+		}
+		return false
+	case *ast.StarExpr:
+		return true
+	case *ast.ParenExpr:
+		return rw.addressable(x.X)
+	case *ast.IndexExpr:
+		if t := rw.info.TypeOf(x.X); t != nil {
+			if _, isSlice := t.Underlying().(*types.Slice); isSlice {
+				return true
+			}
+		}
+		return rw.addressable(x.X)
+	}
+	return false
 }
 
 func (rw *rewriter) isHTTPClient(cl *ast.CompositeLit) bool {
@@ -572,11 +642,15 @@ func (rw *rewriter) rangeStmt(n *ast.RangeStmt) {
 
 func (rw *rewriter) goStmt(n *ast.GoStmt) ast.Stmt {
 	rw.used = true
-	controlled := rw.goCtl[rw.curFunc]
+	controlled := rw.goCtl[rw.curFunc] || *flagGoAll
 	fn := "GoForeign"
 	kind := "goforeign"
 	if controlled {
 		fn, kind = "Go", "go"
+		if *flagGoAll {
+			// a simulated task under the bubble kernel; native (and the yield scheduler stands down) under the race kernel
+			rw.uncontrolled("go statement (native under the race kernel)", n.Pos())
+		}
 	} else {
 		rw.uncontrolled("go statement", n.Pos())
 	}
